@@ -8,6 +8,7 @@ import (
 	"fmt"
 	"strings"
 	"sync"
+	"sync/atomic"
 	"time"
 
 	"simrt"
@@ -104,6 +105,7 @@ func c12FinFirst(rc *simrt.RunCtx) {
 const c12Fin = time.Second // default FIN send timeout of the code under test
 
 func c12Run(rc *simrt.RunCtx) {
+	var peerStallDirty atomic.Bool
 	ns := []uint8{1, 2, 3, DefaultN, 254}
 	n := ns[rc.Pick(len(ns), "knob.n")]
 	tk := tknobs{handshake: 300 * time.Millisecond}
@@ -118,13 +120,16 @@ func c12Run(rc *simrt.RunCtx) {
 		tk.ping = time.Duration(1+rc.Pick(4, "knob.ping")) * time.Second
 		tk.pong = time.Duration(1+rc.Pick(3, "knob.pong")) * time.Second
 	}
-	phases := []string{"handshake", "idle", "burst", "full-window", "resend", "blocked-recv", "unread-backlog"}
+	phases := []string{"handshake", "idle", "burst", "full-window", "resend", "blocked-recv", "unread-backlog", "peer-burst"}
 	phase := phases[rc.Pick(len(phases), "wl.phase")]
-	transports := []string{"healthy", "healthy", "blackout", "stall"}
+	transports := []string{"healthy", "healthy", "blackout", "stall", "peer-stall"}
 	transport := transports[rc.Pick(len(transports), "wl.transport")]
 	whos := []string{"client", "server", "both"}
 	who := whos[rc.Pick(len(whos), "wl.who")]
 	callers := 1 + rc.Pick(3, "wl.callers")
+	if transport == "peer-stall" && who == "both" {
+		transport = "healthy"
+	}
 	rc.Knob("N", n)
 	rc.Knob("timeouts", tk)
 	rc.Knob("phase", phase)
@@ -245,6 +250,35 @@ func c12Run(rc *simrt.RunCtx) {
 		time.Sleep(tk.resend + time.Duration(rc.Pick(int(4*tk.resend/time.Millisecond), "wl.close-after"))*time.Millisecond)
 	case "idle", "blocked-recv":
 		time.Sleep(time.Duration(rc.Pick(9000, "wl.close-after")) * time.Millisecond)
+	case "peer-burst":
+		// only the side that is NOT going to close sends, and keeps sending:
+		// its send loop is busy (and, with the peer-stall transport, blocked
+		// inside the send callback) when the other side's FIN arrives
+		think := time.Duration(1+rc.Pick(20, "wl.think")) * time.Millisecond
+		slow := func(g *GoBackNConn, tr *callTracker, dir byte) {
+			if g == nil {
+				return
+			}
+			wg.Add(1)
+			go func() {
+				defer wg.Done()
+				for i := 0; ; i++ {
+					tr.begin()
+					err := g.Send(mkMsg(dir, i, 16))
+					tr.end(err)
+					if err != nil {
+						return
+					}
+					time.Sleep(think)
+				}
+			}()
+		}
+		if who == "client" {
+			slow(srv, &trS, 'B')
+		} else {
+			slow(cli, &trC, 'A')
+		}
+		time.Sleep(time.Duration(rc.Pick(1500, "wl.close-after")) * time.Millisecond)
 	case "unread-backlog":
 		// the server application does not call Recv while the client sends
 		// more than a window of messages: the server's receive loop sits
@@ -291,6 +325,39 @@ func c12Run(rc *simrt.RunCtx) {
 		rc.Fault("stall-at-close")
 		// let the stall begin a little before Close, so that Close can land
 		// while a (re)transmission is blocked inside the send callback
+		if lead := rc.Pick(4, "wl.stall-lead"); lead > 0 {
+			time.Sleep(time.Duration(lead) * tk.resend)
+			tClose = rc.Now()
+		}
+	case "peer-stall":
+		// the send callback of the endpoint that is NOT closing blocks until
+		// its context is cancelled, while the closer's FIN still reaches it:
+		// the peer's send loop may sit inside the callback (a data packet, a
+		// retransmission, a ping) when its receive loop reads the FIN
+		pl, cl := np.s2c, np.c2s // peer's outgoing link, closer's outgoing link
+		if who == "server" {
+			pl, cl = np.c2s, np.s2c
+		}
+		pl.mu.Lock()
+		pl.stallUntil = 1 << 62
+		pl.mu.Unlock()
+		if phase == "idle" || phase == "blocked-recv" || phase == "peer-burst" {
+			// (these phases install no other filter) remember whether the
+			// closer sent DATA - a ping - after the stall began: the peer's
+			// receive loop then blocks in the stalled send of the ACK and
+			// cannot read the FIN
+			cl.mu.Lock()
+			cl.filter = func(b []byte, _ time.Duration) (byte, time.Duration) {
+				if len(b) > 0 && b[0] == DATA {
+					peerStallDirty.Store(true)
+				}
+				return 0, 0
+			}
+			cl.mu.Unlock()
+		} else {
+			peerStallDirty.Store(true)
+		}
+		rc.Fault("peer-stall-at-close")
 		if lead := rc.Pick(4, "wl.stall-lead"); lead > 0 {
 			time.Sleep(time.Duration(lead) * tk.resend)
 			tClose = rc.Now()
@@ -373,7 +440,12 @@ func c12Run(rc *simrt.RunCtx) {
 		}
 		var bound time.Duration
 		switch {
-		case transport == "healthy":
+		case transport == "peer-stall" && peerStallDirty.Load():
+			// its receive loop may be blocked in its own stalled send callback
+			// (the ACK of a ping): nothing can tell it
+			rc.Probe("c12.peer-stalled-receive-loop")
+			return
+		case transport == "healthy" || transport == "peer-stall":
 			bound = tClose + c12Fin + 2*lat + 2*time.Second
 		case keepalive:
 			bound = tClose + 3*(tk.ping+tk.pong) + 20*g.timeoutManager.GetResendTimeout() + 10*time.Second
@@ -414,11 +486,25 @@ func c12Run(rc *simrt.RunCtx) {
 		return
 	}
 	// ---- nothing may be left running -----------------------------------
-	if cli != nil {
-		cli.Close()
+	// (one more Close on each endpoint; for the peer it is the application's
+	// own Close after the other side's FIN - it must return like any other)
+	finalDone := make(chan struct{}, 2)
+	finals := 0
+	for _, g := range []*GoBackNConn{cli, srv} {
+		if g == nil {
+			continue
+		}
+		g := g
+		finals++
+		go func() { g.Close(); finalDone <- struct{}{} }()
 	}
-	if srv != nil {
-		srv.Close()
+	for i := 0; i < finals; i++ {
+		select {
+		case <-finalDone:
+		case <-time.After(closeBound + 10*time.Second):
+			rc.Violate("c12.close-hangs", "final/"+phase+"/"+transport, "a Close call on an endpoint (after the other side had closed: who=%s) has not returned within %v", who, closeBound+10*time.Second)
+			return
+		}
 	}
 	cancel()
 	wdone := make(chan struct{})
